@@ -1343,6 +1343,21 @@ def run_C07(rng, tier):
                 continue
             _, xs = gen_stream(rng, (2 * n + 10) if n <= 40 else (n + 10), positive=(v == "Cog"), grid=rng.choice([1, 4]))
             fcases.append(Case(( v, n, E), [("v", 0, x) for x in xs], {"regime": "every-n", "view": v, "model": False, "mode": "f64"}))
+    # "every finite input": small integers times 2^1018 (raw bit patterns) -- every window sum of the recomputing views is still finite, so the
+    # answers are; an intermediate such as 100 * gain formed before the division overflows only here
+    import struct
+    for v in ("Rsi", "Hln", "Net", "Min", "Max", "Entropy", "Drawdown", "Tanh"):
+        for n in (2, 4, 7):
+            fx = [float(rng.below(9) + 1) * 2.0 ** 1018 for _ in range(3 * n + 8)]
+            d = (v, E) if v in ("Drawdown", "Tanh") else (v, n, E)
+            fcases.append(Case(d, [("v", 0, "x%016x" % struct.unpack("<Q", struct.pack("<d", x_))[0]) for x_ in fx], {"regime": "unit 2^1018", "view": v, "model": False, "mode": "f64"}))
+    # after tens of thousands of updates: a quiet window with one outlier puts Vsct exactly AT its bound (N-1)/sqrt(N); statistics that have
+    # silently come to cover N+1 samples (a periodic rebuild at the wrong point) exceed it there
+    for n in (2, 3, 5, 16):
+        for Lw in (2 ** 14 + 7, 2 ** 15 + 300 + rng.below(500), 2 ** 16 + 11):
+            cq = F(100 + rng.below(50))
+            suffix = [cq] * (n + 3) + [cq * F(8, 5)] + [cq] * 2 + [cq * F(1, 2)] + [cq] * (n + 2)
+            fcases.append(Case(("Vsct", n, E), [("W", 0, rng.below(2 ** 40) + 1, Lw)] + [("v", 0, x) for x in suffix], {"regime": "long-then-outlier", "view": "Vsct", "model": False, "mode": "f64"}))
     run_impl(fcases, mode="f64")
     viols += O.c07(fcases, f64=True)
     return finish("C07", "C07", cases, viols, "every bounded view, N>=2, all regimes incl. constant stretches after volatile ones, spikes, monotone runs; exact-rational bound check at every step, and an f64 repeat with a tolerance of 4 ulps of the bound",
